@@ -169,7 +169,7 @@ package vm
 //@   loop 2 invariant forall j7 in 0..len(m.Stack) :: m.Stack[j7] == old(m.Stack)[j7] // C12
 //@   loop 4 invariant 0 - 1 <= i && i < len(parts) // C12
 //@   property C01 C03
-//@   alsofor C08 C12
+//@   alsofor C08 C12 C09
 
 // Execute: the invariant of tick holds at every step, so D never increases over a whole run.
 //@ func (*vm.Machine).Execute
